@@ -217,7 +217,11 @@ def run(ctx):
             continue
         n, a = ss[0]
         t = norm(inl(n, a.value))
-        ctx.check("R36.2", f"{fi.key}::'{role}' = {what}", t in wanted, t, fi, a)
+        if role == "ndof":
+            ctx.check("R36.2", f"{fi.key}::'ndof' is derived from n = size - #NaN - #zero", t == want_n or t in wanted, t, fi, a)
+            ctx.check("R36.2", f"{fi.key}::'ndof' counts two degrees of freedom per complex entry (as nifty.re does)", t in wanted, t, fi, a)
+        else:
+            ctx.check("R36.2", f"{fi.key}::'{role}' = {what}", t in wanted, t, fi, a)
     for role, num, what in (("redchisq", (f"np.nansum(abs({arr})**2)", f"np.nansum(np.abs({arr})**2)"), "nansum(|x|^2)/ndof (ndof = 2n for complex x)"),
                             ("scmean", (f"np.nansum({arr})",), "nansum(x)/n")):
         aa = [(n, c) for n, c in adds if base_of(c.func.value) == roles[role]]
@@ -225,6 +229,10 @@ def run(ctx):
             ctx.und("R36.2", f"{fi.key}::'{role}' accumulates {what}", f"no add into {roles[role]}", fi)
             continue
         verdict, det = True, []
+        cplx_ok = []
+
+        def raw_ok_pre(t_, num_):
+            return t_ in num_
         for n, c in aa:
             # walrus temporaries: resolve `tmp` to the NamedExpr value in the dominating test
             e = c.args[0]
@@ -232,8 +240,12 @@ def run(ctx):
             t = norm(inl(n, e2))
             at = known_atoms(cfg, n.id)
             zero_case = any(pol and "==0" in norm(tt) and "lsize" in norm(tt) or (pol and norm(tt).endswith("==0")) for tt, pol in at)
-            dens = want_dof if role == "redchisq" else (want_n,)
+            dens = (want_n,) + (want_dof if role == "redchisq" else ())
             full = tuple(f"{x}/({d_})" for x in num for d_ in dens) + tuple(f"{x}/{d_}" for x in num for d_ in dens)
+            full2 = tuple(f"{x}/({d_})" for x in num for d_ in want_dof) + tuple(f"{x}/{d_}" for x in num for d_ in want_dof)
+            if role == "redchisq" and not raw_ok_pre(t, num):
+                strip = lambda q: q.replace("(", "").replace(")", "")  # noqa: E731
+                cplx_ok.append(t in full2 or strip(t) in tuple(strip(f) for f in full2))
             raw_ok = t in num
             if t in full or t.replace("(", "").replace(")", "") in tuple(f.replace("(", "").replace(")", "") for f in full):
                 det.append(f"{t[:90]}")
@@ -242,7 +254,12 @@ def run(ctx):
             else:
                 verdict = False
                 det.append(f"accumulates `{t[:160]}`")
-        ctx.check("R36.2", f"{fi.key}::'{role}' accumulates {what}", verdict, "; ".join(det), fi, aa[0][1])
+        if role == "redchisq":
+            ctx.check("R36.2", f"{fi.key}::'redchisq' accumulates nansum(|x|^2) over the counted entries", verdict, "; ".join(det), fi, aa[0][1])
+            ctx.check("R36.2", f"{fi.key}::'redchisq' counts two degrees of freedom per complex entry (as nifty.re does)",
+                      (all(cplx_ok) and bool(cplx_ok)) if verdict else None, "; ".join(det), fi, aa[0][1])
+        else:
+            ctx.check("R36.2", f"{fi.key}::'{role}' accumulates {what}", verdict, "; ".join(det), fi, aa[0][1])
     # where the two statistics come from
     zips = [c for c in ast.walk(fi.node) if isinstance(c, ast.Call) and call_name(c) == "zip" and len(c.args) == 2 and all("iterator(" in src(a) for a in c.args)]
     key = f"{fi.key}::slot 0 iterates the normalised residual, slot 1 the sample itself, over the same sample list"
